@@ -1,6 +1,7 @@
 # pyright: reportPrivateImportUsage=false
 from __future__ import annotations
 
+import math
 import warnings
 from typing import Callable, Sequence, TYPE_CHECKING, TypeVar
 from functools import lru_cache, reduce, wraps
@@ -189,8 +190,10 @@ def prepare_affine(
     new_center: list[float] = []
     need_pad = False
     for c, s, s0 in zip(center, output_shape, img.shape):
-        x0 = int(c - s / 2 - order)
-        x1 = int(x0 + s + 2 * order + 1)
+        # the window must contain every sampled coordinate (c - (s - 1) / 2 to
+        # c + (s - 1) / 2) with a margin of at least `order` on both sides
+        x0 = math.floor(c - s / 2 - order)
+        x1 = x0 + s + 2 * order + 2
         _sl, _pad, _need_pad = make_slice_and_pad(x0, x1, s0)
         slices.append(_sl)
         pads.append(_pad)
@@ -221,8 +224,8 @@ def prepare_affine_cornersafe(
     new_center: list[float] = []
     need_pad = False
     for c, s0 in zip(center, img.shape):
-        x0 = int(c - half_len - order)
-        x1 = int(x0 + max_len + 2 * order + 1)
+        x0 = math.floor(c - half_len - order)
+        x1 = x0 + math.ceil(max_len) + 2 * order + 2
         _sl, _pad, _need_pad = make_slice_and_pad(x0, x1, s0)
         slices.append(_sl)
         pads.append(_pad)
